@@ -1,5 +1,5 @@
 use crate::rt::object;
-use crate::rt::{self, Access, Location, Synchronize, VersionVec};
+use crate::rt::{self, Access, Location, Synchronize, VersionVec, MAX_THREADS};
 
 use std::sync::atomic::Ordering::{Acquire, Release, SeqCst};
 
@@ -22,17 +22,19 @@ pub(super) struct State {
     /// Only updated on on ref dec and acquired before drop
     synchronize: Synchronize,
 
-    /// Tracks access to the arc object
-    last_ref_inc: Option<Access>,
+    /// Tracks access to the arc object. Increments and inspections are
+    /// tracked per thread: they are independent among themselves, so a single
+    /// slot would let one thread's access hide another thread's racing one.
+    last_ref_inc: [Option<Access>; MAX_THREADS],
     last_ref_dec: Option<Access>,
-    last_ref_inspect: Option<Access>,
-    last_ref_modification: Option<RefModify>,
+    last_ref_inspect: [Option<Access>; MAX_THREADS],
 }
 
 /// Actions performed on the Arc
 ///
 /// Clones are only dependent with inspections. Drops are dependent between each
-/// other.
+/// other and with inspections. Inspections are dependent with clones and
+/// drops.
 #[derive(Debug, Copy, Clone, PartialEq)]
 pub(super) enum Action {
     /// Clone the arc
@@ -46,18 +48,6 @@ pub(super) enum Action {
     Inspect,
 }
 
-/// Actions which modify the Arc's reference count
-///
-/// This is used to ascertain dependence for Action::Inspect
-#[derive(Debug, Copy, Clone, PartialEq)]
-enum RefModify {
-    /// Corresponds to Action::RefInc
-    RefInc,
-
-    /// Corresponds to Action::RefDec
-    RefDec,
-}
-
 impl Arc {
     pub(crate) fn new(location: Location) -> Arc {
         rt::execution(|execution| {
@@ -65,10 +55,9 @@ impl Arc {
                 ref_cnt: 1,
                 allocated: location,
                 synchronize: Synchronize::new(),
-                last_ref_inc: None,
+                last_ref_inc: Default::default(),
                 last_ref_dec: None,
-                last_ref_inspect: None,
-                last_ref_modification: None,
+                last_ref_inspect: Default::default(),
             });
 
             trace!(?state, %location, "Arc::new");
@@ -90,7 +79,8 @@ impl Arc {
 
     /// Validate a `get_mut` call
     pub(crate) fn get_mut(&self, location: Location) -> bool {
-        self.branch(Action::RefDec, location);
+        // Looks at the reference count: dependent with clones and drops
+        self.branch(Action::Inspect, location);
 
         rt::execution(|execution| {
             let state = self.state.get_mut(&mut execution.objects);
@@ -184,27 +174,37 @@ impl State {
     pub(super) fn last_dependent_access(&self, action: Action) -> Option<&Access> {
         match action {
             // RefIncs are not dependent w/ RefDec, only inspections
-            Action::RefInc => self.last_ref_inspect.as_ref(),
+            Action::RefInc => None,
             Action::RefDec => self.last_ref_dec.as_ref(),
-            Action::Inspect => match self.last_ref_modification {
-                Some(RefModify::RefInc) => self.last_ref_inc.as_ref(),
-                Some(RefModify::RefDec) => self.last_ref_dec.as_ref(),
-                None => None,
-            },
+            Action::Inspect => self.last_ref_dec.as_ref(),
         }
     }
 
-    pub(super) fn set_last_access(&mut self, action: Action, path_id: usize, version: &VersionVec) {
+    /// Per-thread accesses `action` is dependent with, in addition to
+    /// `last_dependent_access`.
+    pub(super) fn more_dependent_accesses(&self, action: Action) -> &[Option<Access>] {
+        match action {
+            Action::RefInc => &self.last_ref_inspect,
+            Action::RefDec => &self.last_ref_inspect,
+            Action::Inspect => &self.last_ref_inc,
+        }
+    }
+
+    pub(super) fn set_last_access(
+        &mut self,
+        action: Action,
+        thread: usize,
+        path_id: usize,
+        version: &VersionVec,
+    ) {
         match action {
             Action::RefInc => {
-                self.last_ref_modification = Some(RefModify::RefInc);
-                Access::set_or_create(&mut self.last_ref_inc, path_id, version)
+                Access::set_or_create(&mut self.last_ref_inc[thread], path_id, version)
             }
-            Action::RefDec => {
-                self.last_ref_modification = Some(RefModify::RefDec);
-                Access::set_or_create(&mut self.last_ref_dec, path_id, version)
+            Action::RefDec => Access::set_or_create(&mut self.last_ref_dec, path_id, version),
+            Action::Inspect => {
+                Access::set_or_create(&mut self.last_ref_inspect[thread], path_id, version)
             }
-            Action::Inspect => Access::set_or_create(&mut self.last_ref_inspect, path_id, version),
         }
     }
 }
